@@ -339,4 +339,23 @@ PROPS = {
             {"engine": "vt", "quick": 3200, "thorough": 300000, "what": "E-A: real NodeServer + adversarial peer over an in-memory stream"},
         ],
     },
+    "C18": {
+        "level": "exploration",
+        "technique": "runtime monitoring: (elect) the real election function evaluated at both endpoints on mirrored candidate sets with independently shuffled actor ids under every permutation of candidate order; (vt) two real NodeServers joined by in-memory connections with chosen nonces (H5 override) and unauthenticated name spoofers, observed through NodeEventSubscription callbacks and sampled GetSessions on both nodes",
+        "level_text": ("(elect) all 461 multisets of <= 5 physical connections over {initiator A/B} x {nonce 0 (legacy), 1, 2} x both name orders, every "
+                       "permutation of candidate order (134 592 evaluations, all run every time): the result is permutation invariant, all survivors carry "
+                       "the same (initiator, nonce) label at both endpoints, the accepting endpoint of the winning direction elects exactly one which "
+                       "the initiating endpoint also keeps (an outgoing tie of identical labels may keep the tied set). (vt) 1-4 connections with random "
+                       "initiators, arrival order, delays and nonces incl. legacy/repeated, 0-2 spoofers claiming the peer's name with a wrong cookie "
+                       "(before, during and after convergence): both nodes end with exactly one authenticated and one ready session on the same link, "
+                       "never list two authenticated sessions (unless an identical-label tie is possible), never authenticate/ready/list a spoofer, and "
+                       "a single real link is never displaced."),
+        "level_note": "A displaced link's `disconnected` event may trail the winner's `ready` event in the callback stream, so the at-most-one clause is read from the node's own session table (GetSessions samples) and from the final event balance.",
+        "rule": "elect: one case per (multiset, name order), all non-trivial; vt: non-trivial = >= 2 connections or a spoofer; distinct = hash(connection plan, spoofers, name order, arrival order).",
+        "assumptions": ["both NodeServers live in one process (they share only the global registries, which C18 does not use)"],
+        "runs": [
+            {"engine": "elect", "quick": 16, "thorough": 16, "what": "exhaustive election-function enumeration (H5 access)"},
+            {"engine": "vt", "quick": 3200, "thorough": 300000, "what": "E-A: two real NodeServers, in-memory links, spoofers"},
+        ],
+    },
 }
